@@ -84,6 +84,8 @@ func C04(c *Ctx) {
 	r := c.R
 	r.Rule("R04.1", "FSM table: the fsm.Events literal of TransactionManager.setFSM (read from syntax, enum names from the generated TransactionStatus_name table) contains only transitions of the protocol relation stated in the property; no transition leaves SUCCESS, FAILURE or ROLLBACK; every event that callers can fire (receipt2EventM, txStatus2EventM) has a status write-back callback.")
 	r.Rule("R04.2", "status writers: every write of a tx record (key TxInfoKey) stores either a freshly created record (in Begin / the record-absent branch) or a status produced by setFSM from a status that was loaded from the stored record on every path (Unmarshal / GetObject precedes setFSM); the executor's timeout write applies BEGIN_ROLLBACK only to ids read from the timeout list of the same height.")
+	r.Rule("R04.11", "the event table of its kind: a status code signed by the destination BitXHub (BxhProof.TxStatus) is translated into an FSM event through txStatus2EventM and through no other table, and only such codes are looked up there - also when the code reaches the lookup through a parameter of a helper (then the table and the code of every call site are paired). The two tables share their int32 keys (BEGIN_FAILURE = RECEIPT_SUCCESS = 1, BEGIN_ROLLBACK = RECEIPT_FAILURE = 2): a notice read through the receipt table drives BEGIN to SUCCESS by a transition the FSM table allows.")
+	c.c04EventTables()
 	r.Rule("R04.3", "a rejected receipt has no effect: in Report and BeginInterBitXHub every record write lies behind the no-error edge of setFSM.")
 	r.NotDecided = append(r.NotDecided, "reachability of each edge over histories; contents of inter-BitXHub proofs")
 	// clauses of the timeout bookkeeping that are necessary for "final statuses never change" and "a rejected receipt
@@ -308,4 +310,101 @@ func C04(c *Ctx) {
 func astInspectCallbacks(ev *core.Evaluator, pk interface{}, fd interface{}, out map[string]bool) {
 	// implemented in c04_ast.go to keep go/ast imports local
 	collectCallbacks(ev, pk, fd, out)
+}
+
+// c04EventTables: R04.11.
+func (c *Ctx) c04EventTables() {
+	r := c.R
+	m := c.Contracts()
+	isNotice := func(v ssa.Value) bool {
+		return core.Mentions(v, func(w ssa.Value) bool {
+			o, f, _, ok := core.FieldOf(w)
+			return ok && f == "TxStatus" && strings.HasSuffix(o, "BxhProof")
+		})
+	}
+	globalName := func(v ssa.Value) string {
+		if u, ok := core.Strip(v).(*ssa.UnOp); ok {
+			if g, ok := u.X.(*ssa.Global); ok {
+				return g.Name()
+			}
+		}
+		return ""
+	}
+	n := 0
+	check := func(fn *ssa.Function, lk *ssa.Lookup, table string, notice bool, how string) {
+		n++
+		key := fmt.Sprintf("%s: %s[%s]", shortFn(fn), table, how)
+		switch {
+		case table == "txStatus2EventM" && !notice:
+			r.Bad("R04.11", key, c.P.Pos(lk.Pos()), "a code that is not the status signed by the destination BitXHub is translated through txStatus2EventM")
+		case table != "txStatus2EventM" && notice:
+			r.Bad("R04.11", key, c.P.Pos(lk.Pos()), "the status code of the destination BitXHub's notice (BxhProof.TxStatus) is translated through "+table+" instead of txStatus2EventM: the tables share their keys, so BEGIN_FAILURE (1) is read as RECEIPT_SUCCESS and BEGIN_ROLLBACK (2) as RECEIPT_FAILURE - the notice moves the transaction to SUCCESS / FAILURE instead of FAILURE / ROLLBACK")
+		default:
+			r.OK("R04.11", key, c.P.Pos(lk.Pos()), "table and code are of the same kind")
+		}
+	}
+	for _, fn := range m.funcs {
+		for _, b := range fn.Blocks {
+			for _, in := range b.Instrs {
+				lk, ok := in.(*ssa.Lookup)
+				if !ok || !strings.HasSuffix(lk.X.Type().String(), "contracts.TransactionEvent") || !strings.HasPrefix(lk.X.Type().String(), "map[int32]") {
+					continue
+				}
+				tabPar, tabIsPar := core.Strip(lk.X).(*ssa.Parameter)
+				keyPar, keyIsPar := core.Strip(lk.Index).(*ssa.Parameter)
+				if !tabIsPar && !keyIsPar {
+					if t := globalName(lk.X); t != "" {
+						check(fn, lk, t, isNotice(lk.Index), "code computed in the function")
+					}
+					continue
+				}
+				// table and / or code are parameters: pair them at every call site
+				top := fn
+				for top.Parent() != nil {
+					top = top.Parent()
+				}
+				idx := func(p *ssa.Parameter) int {
+					for i, q := range top.Params {
+						if q == p {
+							return i
+						}
+					}
+					return -1
+				}
+				sitesOf := core.StaticSitesOf(top)
+				if len(sitesOf) == 0 && !tabIsPar {
+					// an entry point: the code is an argument of the invocation (a receipt type), not a signed notice
+					if t := globalName(lk.X); t != "" {
+						check(fn, lk, t, isNotice(lk.Index), "code is an argument of the entry")
+					}
+					continue
+				}
+				if len(sitesOf) == 0 {
+					r.Unknown("R04.11", shortFn(fn)+": event lookup through parameters", c.P.Pos(lk.Pos()), "no static call site of the helper found")
+					continue
+				}
+				for _, site := range sitesOf {
+					args := site.Common().Args
+					table := globalName(lk.X)
+					if tabIsPar {
+						if i := idx(tabPar); i >= 0 && i < len(args) {
+							table = globalName(args[i])
+						}
+					}
+					notice := isNotice(lk.Index)
+					if keyIsPar {
+						if i := idx(keyPar); i >= 0 && i < len(args) {
+							notice = isNotice(args[i])
+						}
+					}
+					if table == "" {
+						r.Unknown("R04.11", shortFn(fn)+": event table at call site", c.P.Pos(site.Pos()), "the table handed to the helper is not one of the package's tables")
+						continue
+					}
+					check(fn, lk, table, notice, "from "+shortFn(site.Parent()))
+				}
+			}
+		}
+	}
+	r.Floor("R04.11", "event-table lookups", n, 4)
 }
